@@ -124,6 +124,14 @@ var Shadow = Naming{"shadow",
 	func(f, i int) string { return "g" + string(letters[i-1]) },
 	func(g int) string { return "g" + string(letters[g-1]) }}
 
+// Special names parameters like special variables (a parameter hides the special variable of the same name and
+// is an ordinary local, scalar or array as its uses say).
+var specialNames = []string{"RSTART", "RLENGTH", "SUBSEP", "CONVFMT", "OFMT", "FNR", "RT", "FILENAME", "NR", "NF"}
+var Special = Naming{"special",
+	func(f int) string { return "f" + string(letters[f-1]) },
+	func(f, i int) string { return specialNames[i-1] },
+	func(g int) string { return "g" + string(letters[g-1]) }}
+
 func usesGlobalInFunc(p *Prog) bool {
 	for _, fn := range p.Funcs {
 		for _, st := range fn.Body {
@@ -488,6 +496,7 @@ func Replay(raw json.RawMessage) hx.Outcome {
 	if !usesGlobalInFunc(p) {
 		namings = append(namings, &Shadow)
 	}
+	namings = append(namings, &Special)
 	var rs []*rendering
 	for ni, nm := range namings {
 		for _, ord := range Orders(nf) {
